@@ -753,10 +753,28 @@ def _special_bin(s, o, f, swap):
 
 
 def _trig(e):
-    """(cos(e), sin(e)) of a symbolic angle as UF terms with cos^2+sin^2=1."""
-    cs, sn = UF["cos"](e), UF["sin"](e)
+    """(cos(e), sin(e)) of a symbolic angle.
+
+    The angle is split into its constant part c and its symbolic part s (e = c + s, when e is linear);
+    cos/sin of s are uninterpreted terms tied by cos^2+sin^2=1, and the angle-addition formulas with the
+    exact double values of cos c, sin c give cos e, sin e.  Identities such as sum_j cos(theta_j - a) = 0
+    on a uniform circle are then within reach of the solver."""
+    c0 = 0.0
+    sym_part = e
+    try:
+        from vt.symreal.abstract import Abstractor
+        l = Abstractor().lin(e)
+        if l is not None and l.get(None) and any(k is not None for k in l):
+            c0 = float(l[None])
+            sym_part = z3.simplify(e - z3.RealVal(str(l[None])))
+    except Exception:
+        c0, sym_part = 0.0, e
+    cs, sn = UF["cos"](sym_part), UF["sin"](sym_part)
     ctx().axiom(("trig", cs.get_id()), z3.And(cs * cs + sn * sn == 1, cs >= -1, cs <= 1, sn >= -1, sn <= 1))
-    return cs, sn
+    if c0 == 0.0:
+        return cs, sn
+    cc, sc = fconst(math.cos(c0)), fconst(math.sin(c0))
+    return cc * cs - sc * sn, sc * cs + cc * sn
 
 
 def _pow_uf(b, p):
